@@ -17,12 +17,15 @@ pub fn check(tier: Tier) -> Check {
     // identifiers that only differ in their high byte / collide when truncated
     parts.push(Part::new("C09/qos2", json!({"depth": tier.pick(6, 7), "ids": [1, 257]}), 0, tier.pick(40, 300)));
     parts.push(Part::new("C09/qos2", json!({"depth": tier.pick(6, 7), "ids": [255, 65535]}), 0, tier.pick(40, 300)));
+    // the client's own QoS 2 publishes use the same identifier values (1, 2, ...) - an independent
+    // namespace: their PUBREC / PUBCOMP must not touch the inbound bookkeeping
+    parts.push(Part::new("C09/qos2", json!({"depth": tier.pick(6, 7), "own": true}), 0, tier.pick(40, 400)));
     parts.push(Part::new("C09/wide", json!({"n": tier.pick(4096, 65535)}), 0, 300));
     Check {
         also_rel: false,
         property: "C09",
         level: "model_checking",
-        rule: "all sequences over {PUBLISH(QoS 2, id in {1,2} / {1,257} / {255,65535}, DUP 0/1), PUBREL(id in {1,2}), an unrelated QoS 1 PUBLISH} against one subscribed stream; the model keeps the set of identifiers awaiting PUBREL; plus deterministic runs over every identifier 1..=n at once (deliver all, re-deliver all, release all, twice, three orders); non-trivial = a re-delivery had to be suppressed".into(),
+        rule: "all sequences over {PUBLISH(QoS 2, id in {1,2} / {1,257} / {255,65535}, DUP 0/1), PUBREL(id in {1,2}), an unrelated QoS 1 PUBLISH} against one subscribed stream, also interleaved with two QoS 2 publishes of the client's own that carry the same identifier values and their PUBREC / PUBCOMP; the model keeps the set of identifiers awaiting PUBREL; plus deterministic runs over every identifier 1..=n at once (deliver all, re-deliver all, release all, twice, three orders); non-trivial = a re-delivery had to be suppressed".into(),
         assumptions: vec![],
         parts,
     }
@@ -92,6 +95,7 @@ pub fn scenario(name: &str, params: &Value) -> Scenario {
         .as_array()
         .map(|a| a.iter().map(|x| x.as_u64().unwrap() as u16).collect())
         .unwrap_or_else(|| vec![1, 2]);
+    let own = params["own"].as_bool().unwrap_or(false);
     let params = params.clone();
     let name = name.to_string();
     Box::new(move |chz, ex| {
@@ -119,6 +123,18 @@ pub fn scenario(name: &str, params: &Value) -> Scenario {
                 e.push(Ev::Deliver(pubrel_in(pid)));
             }
             e.push(Ev::Deliver(inbound(1, false, ids[0], &[sid], &format!("u{}", n))));
+            if own {
+                let mine = s
+                    .m
+                    .ops
+                    .iter()
+                    .filter(|o| matches!(o.spec, OpSpec::Publish(_)))
+                    .count();
+                if mine < 2 {
+                    e.push(Ev::Start(OpSpec::Publish(PublishSpec::simple(2, "t/own", b"mine"))));
+                }
+                e.extend(broker_acks(s, false, false));
+            }
             e
         };
         drive(&mut sys, chz, depth, &|_| vec![], &evs);
